@@ -8,6 +8,7 @@ fn run_cmd(cmd: &str, args: &Args) -> String {
         "doc" => tree::cmd_doc(args),
         "val" => tree::cmd_val(args),
         "acc" => tree::cmd_acc(args),
+        "accv" => tree::cmd_accv(args),
         "docf" => tree::cmd_docf(args),
         "spanned" => verif_harness::spanned::cmd_spanned(args),
         "spans" => verif_harness::spans::cmd_spans(args),
